@@ -1105,6 +1105,25 @@ func c14Case(c *fw.Ctx, r *rng.R, tree *spec.Spec) {
 			hist = append(hist, "derived structures inserted")
 			c.Count("lists_with_derived_elements")
 		}
+		if l, ok := real.(at.List); ok && r != nil && r.Chance(1, 4) {
+			// one container instance at several indexes: an element is an element, however often its value occurs
+			drive.Protect(func() {
+				shared := []any{at.NewObject("shared", 1), at.NewList("shared"), at.NewObject(), at.NewList()}[r.Intn(4)]
+				for j := 0; j < l.Count(); j++ {
+					if r.Chance(1, 3) {
+						switch l.TypeOf(j) {
+						case at.TypeObject, at.TypeList:
+							shared = l.Get(j)
+						}
+					}
+				}
+				for k := r.Range(2, 3); k > 0; k-- {
+					l.Insert(r.Intn(l.Count()+1), shared)
+				}
+			})
+			hist = append(hist, "one container instance inserted at several indexes")
+			c.Count("lists_with_one_instance_at_several_indexes")
+		}
 		if c.WantSample() && tree.Size() > 4 && tree.Size() < 14 {
 			c.Sample(map[string]any{"container": tree.Canon(), "check": "every typed and untyped view against the elements selected by TypeOf/Get"})
 		}
